@@ -398,6 +398,10 @@ def mapq_world():
         # alignments that are neither consistent nor inconsistent but are processed together with a gene: a mono-exonic read inside the
         # gene's first intron, and a mono-exonic intergenic read 600 bp behind the gene that one bridging read (MAPQ 60) puts into the
         # gene's read cluster - whether they are reported must not depend on the company they are processed in
+        # three exons, the last one being the read's polyA tail aligned to the genome behind a spurious intron (IsoQuant trims such exons):
+        # the 1-2 exon rule looks at the alignment as it is in the BAM file
+        reads.append(W.read_of("inter3a_%d" % q, "chr2", [[7001, 7100], [7301, 7400], [7551, 7570]], polya=False, mapq=q, block_seq={2: "A" * 20}))
+        reads.append(W.read_of("near3a_%d" % q, "chr1", [[3551, 3650], [3801, 3900], [4051, 4070]], polya=False, mapq=q, block_seq={2: "A" * 20}))
         reads.append(W.read_of("intronic_%d" % q, "chr1", [[1351 + 2 * MAPQS.index(q), 1550]], polya=False, mapq=q))
         reads.append(W.read_of("near_%d" % q, "chr1", [[3201, 3600 + 2 * MAPQS.index(q)]], polya=False, mapq=q))
     reads.append(W.read_of("bridge_60", "chr1", [[2501, 3300]], polya=False, mapq=60))
@@ -415,7 +419,7 @@ def mapq_expected(opts, annotated):
     exp = set()
     for q in MAPQS:
         for kind, nex, genic in (("cons", 3, True), ("incons", 2, True), ("inter1", 1, False), ("inter2", 2, False), ("inter3", 3, False),
-                                 ("intronic", 1, False), ("near", 1, False)):
+                                 ("intronic", 1, False), ("near", 1, False), ("inter3a", 3, False), ("near3a", 3, False)):
             if q < mn:
                 continue
             if genic and annotated:
